@@ -288,11 +288,11 @@ Proof.
   { induction active as [|h r IH]; [exact I|]. cbn [map]. split; [|exact IH].
     assert (K : allcalls (fun _ c => calm1b c = true)
       (match state_ping cs2 h with
-       | None => if N.eqb h nm then Ret ROk else Panic 1442
+       | None => Ret ROk
        | Some pok => if N.eqb h nm || negb pok then Ret ROk
                      else e <- perform_change_master cfg h nm ;; Ret (match e with Some x => RErr x | None => ROk end)
        end)).
-    { destruct (state_ping cs2 h) as [pok|]; [|destruct (N.eqb h nm); exact I].
+    { destruct (state_ping cs2 h) as [pok|]; [|exact I].
       destruct (N.eqb h nm || negb pok); [exact I|]. apply allcalls_bind; [apply pcm_calm1|]. intros; exact I. }
     eapply allcalls_impl; [|exact K]. intros s c Kc. apply calm1b_ok; [exact Kc|lia]. }
   intros errs3.
@@ -353,6 +353,7 @@ Proof.
   destruct (most_recent positions) as [|mrh mrs|]; [| |exact I].
   { cbn [safe]. split; [split; discriminate|]. intros; exact I. }
   destruct (sw_choose cfg sw positions mrh) as [nm|]; [|exact I].
+  destruct (negb (mem_host nm (map fst (se_all_hosts env)))); [exact I|].
   sb 1.
   { destruct (negb (N.eqb nm mrh)); [|exact I].
     sb 1; [apply safe_calm; apply ac_exec; reflexivity|]. intros st' [e|] H1'; [exact I|].
@@ -522,6 +523,8 @@ Proof.
   - destruct (sw_choose cfg sw positions mrh) as [nm|] eqn:Ech.
     2:{ exfalso. cbn in H. destruct H as [-> _]. destruct Hw as (x & h & [] & _). }
     exists mrh, mrs, nm. split; [reflexivity|]. split; [exact Ech|].
+    destruct (negb (mem_host nm (map fst (se_all_hosts env)))).
+    { exfalso. cbn in H. destruct H as [-> _]. destruct Hw as (x & h & [] & _). }
     apply runs_bind_inv in H. destruct H as [(t1 & t2 & pre & H1 & H2 & ->)|(s & H1 & _)].
     2:{ exfalso. revert Hw. eapply calm_no_set_writable; [|exact H1].
         destruct (negb (N.eqb nm mrh)); [|exact I].
